@@ -127,7 +127,9 @@ Inductive case :=
         (res : option (tree * list nat * (list nat * list (Z * Z))))
         (dense : option (list nat * list (Z * Z)))
 (** the unpermuted tree built by build_contraction_tree *)
-| CBuild (n : ndesc) (s : scaffold) (res : option tree).
+| CBuild (n : ndesc) (s : scaffold) (res : option tree)
+(** ContractionTreeNode.permute_axes on the node reached by [path] (true = left child) *)
+| CPerm (t : tree) (path : list bool) (p : list nat) (res : option tree).
 
 Definition check (c : case) : bool :=
   match c with
@@ -165,6 +167,7 @@ Definition check (c : case) : bool :=
       | _, _ => false
       end
   | CBuild d s res => opt_eqb tree_eqb (build_contraction_tree (mk_net d) s) res
+  | CPerm t path p res => opt_eqb tree_eqb (permute_axes t path p) res
   end.
 
 Definition bad_cases (cs : list (nat * case)) : list nat :=
